@@ -1,4 +1,4 @@
-"""C02: multi-part check (parts: bee, cd, hs); see harness/parts.py and the part modules."""
+"""C02: multi-part check (parts: beap, bee, cd, hs); see harness/parts.py and the part modules."""
 from harness.parts import make
 
-make(globals(), ['c02_bee', 'c02_cd', 'c02_hs'])
+make(globals(), ['c02_beap', 'c02_bee', 'c02_cd', 'c02_hs'])
